@@ -253,3 +253,210 @@ Print Assumptions C11_late_handover_refuted.
 Theorem C11_notified_only_full_refuted : ~ C11_notified_only_full.
 Proof. exact cond_notified_only_full_refuted. Qed.
 Print Assumptions C11_notified_only_full_refuted.
+
+(* ---- tie T: the segments of class Event (asyncio backend) and class Condition regenerated from /repo's source by
+   tools/translate_cond.py (CondGen.v) and interpreted by CondImp.eexec / CondImp.exec ARE what the models do.
+   Event: exact equality with estep (the inner asyncio.Event is the stdlib model; `ewoken` is asyncio's side of a
+   wake-up).  Condition (variant 0 = HEAD): `runs s0 s' r c t p l0` (written out by C11_tie_runs_spec) = interpreting
+   segment p for task t as condition c from what s0 shows (the shared Lock machine, this condition's queue, the flags
+   and futures of the one-shot events) yields exactly what s' shows, result r and t's phase; other conditions' queues
+   and other tasks' phases untouched.  Function-valued fields are compared pointwise.  All other fields of cst
+   (cenq, setlog, inflight, horizon, nlog, issued, consumed, dropped, lost, owner_rec) are history variables of the
+   observer, not state of the objects, and are never read by the interpretation.  Calls into the shared lock go through
+   Lock.step, whose code is tied by C09_tie_*. ---- *)
+From AV Require Import CondImp CondGen CondGenEq.
+
+Theorem C11_tie_event_set : forall s t,
+  ephase_of s t = EIdle ->
+  estep s (EvSet t) = (fst (eexec ev_set_entry t None s), eres (snd (eexec ev_set_entry t None s))).
+Proof. exact tie_event_set. Qed.
+Print Assumptions C11_tie_event_set.
+
+Theorem C11_tie_event_wait_entry : forall s t,
+  ephase_of s t = EIdle ->
+  estep s (EvWait t) = (fst (eexec ev_wait_entry t None s), eres (snd (eexec ev_wait_entry t None s))).
+Proof. exact tie_event_wait_entry. Qed.
+Print Assumptions C11_tie_event_wait_entry.
+
+Theorem C11_tie_event_wait_checkpoint : forall s t,
+  ephase_of s t = EYield ->
+  estep s (EvResume t) =
+  (if emustc s t
+   then (fst (eexec ev_wait_checkpoint_cancelled t (Some ECancelled) (ewoken s t)),
+         eres (snd (eexec ev_wait_checkpoint_cancelled t (Some ECancelled) (ewoken s t))))
+   else (fst (eexec ev_wait_checkpoint_resumed t None (ewoken s t)),
+         eres (snd (eexec ev_wait_checkpoint_resumed t None (ewoken s t))))).
+Proof. exact tie_event_wait_checkpoint. Qed.
+Print Assumptions C11_tie_event_wait_checkpoint.
+
+Theorem C11_tie_event_wait_inner : forall s t f,
+  ephase_of s t = EWaiting f -> efuts s f <> FPending ->
+  estep s (EvResume t) =
+  (if match efuts s f with FSet => emustc s t | _ => true end
+   then (fst (eexec ev_wait_inner_cancelled t (Some ECancelled) (ewoken s t)),
+         eres (snd (eexec ev_wait_inner_cancelled t (Some ECancelled) (ewoken s t))))
+   else (fst (eexec ev_wait_inner_resumed t None (ewoken s t)),
+         eres (snd (eexec ev_wait_inner_resumed t None (ewoken s t))))).
+Proof. exact tie_event_wait_inner. Qed.
+Print Assumptions C11_tie_event_wait_inner.
+
+Theorem C11_tie_event_is_set : forall s,
+  eeval ev_is_set_cond s = Some (eflag s).
+Proof. exact tie_event_is_set. Qed.
+Print Assumptions C11_tie_event_is_set.
+
+Theorem C11_tie_egstep_eq_estep : forall s o,
+  egstep event_prog s o = estep s o.
+Proof. exact egstep_eq_estep. Qed.
+Print Assumptions C11_tie_egstep_eq_estep.
+
+Theorem C11_tie_cond_acquire_entry : forall s c t,
+  cphase_of s t = PIdle -> phase_of (lk s) t = Idle ->
+  runs s (fst (cstep s (CAcquire c t))) (snd (cstep s (CAcquire c t))) c t cond_acquire_entry (loc_entry 0).
+Proof. exact tie_cond_acquire_entry. Qed.
+Print Assumptions C11_tie_cond_acquire_entry.
+
+Theorem C11_tie_cond_acquire_resume : forall s c t,
+  cphase_of s t = PAcq (Some c) ->
+  let r := snd (Lock.step (lk s) (Resume t)) in
+  let s0 := with_lk s (fst (Lock.step (lk s) (Resume t))) in
+  r <> RRejected ->
+  runs s0 (fst (cstep s (CResume t))) (snd (cstep s (CResume t))) c t
+       (if match r with RDone => true | _ => false end then cond_acquire_lock_resumed else cond_acquire_lock_cancelled)
+       (loc_resume None (exn_of r)).
+Proof. exact tie_cond_acquire_resume. Qed.
+Print Assumptions C11_tie_cond_acquire_resume.
+
+Theorem C11_tie_cond_acquire_nowait : forall s c t,
+  cphase_of s t = PIdle -> phase_of (lk s) t = Idle ->
+  runs s (fst (cstep s (CAcqNowait c t))) (snd (cstep s (CAcqNowait c t))) c t cond_acquire_nowait_entry (loc_entry 0).
+Proof. exact tie_cond_acquire_nowait. Qed.
+Print Assumptions C11_tie_cond_acquire_nowait.
+
+Theorem C11_tie_cond_release : forall s c t,
+  cphase_of s t = PIdle -> phase_of (lk s) t = Idle ->
+  runs s (fst (cstep s (CRelease c t))) (snd (cstep s (CRelease c t))) c t cond_release_entry (loc_entry 0).
+Proof. exact tie_cond_release. Qed.
+Print Assumptions C11_tie_cond_release.
+
+Theorem C11_tie_cond_notify : forall s c t n,
+  variant s = 0 -> cphase_of s t = PIdle ->
+  runs s (fst (cstep s (CNotify c t n))) (snd (cstep s (CNotify c t n))) c t cond_notify_entry (loc_entry n).
+Proof. exact tie_cond_notify. Qed.
+Print Assumptions C11_tie_cond_notify.
+
+Theorem C11_tie_cond_notify_all : forall s c t,
+  variant s = 0 -> cphase_of s t = PIdle ->
+  runs s (fst (cstep s (CNotifyAll c t))) (snd (cstep s (CNotifyAll c t))) c t cond_notify_all_entry (loc_entry 0).
+Proof. exact tie_cond_notify_all. Qed.
+Print Assumptions C11_tie_cond_notify_all.
+
+Theorem C11_tie_cond_wait_entry : forall s c t,
+  variant s = 0 -> cphase_of s t = PIdle -> phase_of (lk s) t = Idle ->
+  runs s (fst (cstep s (CWait c t))) (snd (cstep s (CWait c t))) c t cond_wait_entry (loc_entry 0).
+Proof. exact tie_cond_wait_entry. Qed.
+Print Assumptions C11_tie_cond_wait_entry.
+
+Theorem C11_tie_cond_wait_event_resumed : forall s c e t,
+  cphase_of s t = PWait c e -> phase_of (lk s) t = Idle ->
+  efut s e = FSet -> mustc (lk s) t = false ->
+  let s0 := with_lk s (set_mustc (lk s) t false) in
+  runs s0 (fst (cstep s (CResume t))) (snd (cstep s (CResume t))) c t cond_wait_event_resumed
+       (loc_resume (Some e) None).
+Proof. exact tie_cond_wait_event_resumed. Qed.
+Print Assumptions C11_tie_cond_wait_event_resumed.
+
+Theorem C11_tie_cond_wait_event_cancelled : forall s c e t,
+  cphase_of s t = PWait c e -> phase_of (lk s) t = Idle ->
+  efut s e = FCancelled \/ (efut s e = FSet /\ mustc (lk s) t = true) ->
+  let s0 := with_lk s (set_mustc (lk s) t false) in
+  runs s0 (fst (cstep s (CResume t))) (snd (cstep s (CResume t))) c t cond_wait_event_cancelled
+       (loc_resume (Some e) (Some ECancelled)).
+Proof. exact tie_cond_wait_event_cancelled. Qed.
+Print Assumptions C11_tie_cond_wait_event_cancelled.
+
+Theorem C11_tie_cond_wait_reacq_resume : forall s c e exc t,
+  cphase_of s t = PReacq c e exc ->
+  let r := snd (Lock.step (lk s) (Resume t)) in
+  let s0 := with_lk s (fst (Lock.step (lk s) (Resume t))) in
+  r <> RRejected ->
+  runs s0 (fst (cstep s (CResume t))) (snd (cstep s (CResume t))) c t
+       (match exc, r with
+        | false, RDone => cond_wait_reacq_resumed
+        | false, _ => cond_wait_reacq_cancelled
+        | true, RDone => cond_wait_reacq_exc_resumed
+        | true, _ => cond_wait_reacq_exc_cancelled
+        end)
+       (loc_resume (Some e) (exn_of r)).
+Proof. exact tie_cond_wait_reacq_resume. Qed.
+Print Assumptions C11_tie_cond_wait_reacq_resume.
+
+Theorem C11_tie_cond_locked : forall s c t,
+  eval_cond cond_locked_cond t (loc_entry 0) (vis s c) =
+  Some (match owner (lk s) with Some _ => true | None => false end).
+Proof. exact tie_cond_locked. Qed.
+Print Assumptions C11_tie_cond_locked.
+
+Theorem C11_tie_cond_wait_cancelled_entry_noeffect : forall s c t,
+  exists l, exec cond_wait_entry t loc_entry_cancelled (vis s c) = (l, vis s c, OCancelled).
+Proof. exact cond_wait_cancelled_entry_noeffect. Qed.
+Print Assumptions C11_tie_cond_wait_cancelled_entry_noeffect.
+
+Theorem C11_tie_runs_spec : forall s0 s' r c t p l0,
+  runs s0 s' r c t p l0 <->
+  (let '(l, k, o) := exec p t l0 (vis s0 c) in
+   (lk s' = k_lk k /\ cwaiters s' c = k_cw k /\ (forall e, eset s' e = k_eset k e) /\
+    (forall e, efut s' e = k_efut k e) /\ nev s' = k_nev k /\
+    (forall c', c' <> c -> cwaiters s' c' = cwaiters s0 c') /\ variant s' = variant s0) /\
+   res_of o = Some r /\ phase_after c l o = Some (cphase_of s' t) /\
+   (forall t', t' <> t -> cphase_of s' t' = cphase_of s0 t')).
+Proof. exact runs_spec. Qed.
+Print Assumptions C11_tie_runs_spec.
+
+Theorem C11_tie_cstep_runs_generated : forall s o s0 c t p l0,
+  variant s = 0 ->
+  (forall t, cphase_of s t = PIdle \/ (exists c e, cphase_of s t = PWait c e) -> phase_of (lk s) t = Idle) ->
+  dispatch cond_prog s o = Some (s0, c, t, p, l0) -> snd (cstep s o) <> RRejected ->
+  runs s0 (fst (cstep s o)) (snd (cstep s o)) c t p l0.
+Proof. exact cstep_runs_generated. Qed.
+Print Assumptions C11_tie_cstep_runs_generated.
+
+Theorem C11_tie_grun_iff_creach : forall fa s,
+  grun cond_prog fa s <-> creach fa s.
+Proof. exact grun_iff_creach. Qed.
+Print Assumptions C11_tie_grun_iff_creach.
+
+Theorem C11_tie_gen_notifications_conserved : forall fa s,
+  grun cond_prog fa s ->
+  issued s = consumed s + length (inflight s) + dropped s + lost s.
+Proof. exact gen_notifications_conserved. Qed.
+Print Assumptions C11_tie_gen_notifications_conserved.
+
+Theorem C11_tie_gen_queue_has_live_waiters : forall fa s c e,
+  grun cond_prog fa s -> In e (cwaiters s c) ->
+  eset s e = false /\ efut s e <> FSet /\ exists t, cphase_of s t = PWait c e.
+Proof. exact gen_queue_has_live_waiters. Qed.
+Print Assumptions C11_tie_gen_queue_has_live_waiters.
+
+Theorem C11_tie_gen_refused_iff_not_holder : forall fa s c t n,
+  grun cond_prog fa s -> cphase_of s t = PIdle ->
+  (snd (cstep s (CWait c t)) = RRuntime <-> ~ In t (held (lk s))) /\
+  (snd (cstep s (CNotify c t n)) = RRuntime <-> ~ In t (held (lk s))) /\
+  (snd (cstep s (CNotifyAll c t)) = RRuntime <-> ~ In t (held (lk s))).
+Proof. exact gen_refused_iff_not_holder. Qed.
+Print Assumptions C11_tie_gen_refused_iff_not_holder.
+
+Theorem C11_tie_gen_waiter_runnable_iff_notified_or_cancelled : forall fa s t c e,
+  grun cond_prog fa s -> cphase_of s t = PWait c e ->
+  (eset s e = true -> efut s e <> FPending /\ snd (cstep s (CResume t)) <> RRejected) /\
+  (eset s e = false -> In e (cwaiters s c) /\
+     (efut s e = FPending /\ snd (cstep s (CResume t)) = RRejected \/
+      efut s e = FCancelled /\ snd (cstep s (CResume t)) <> RDone)).
+Proof. exact gen_waiter_runnable_iff_notified_or_cancelled. Qed.
+Print Assumptions C11_tie_gen_waiter_runnable_iff_notified_or_cancelled.
+
+Theorem C11_tie_gen_invariant : forall fa s,
+  grun cond_prog fa s -> CInv s.
+Proof. exact gen_invariant. Qed.
+Print Assumptions C11_tie_gen_invariant.
+
